@@ -93,9 +93,6 @@ def gate2(ctx, rule="GATE-2"):
             hit = None
             cands = [i for i, (k, pat, truth, what) in enumerate(table)
                      if k == kind and facts and re.search(pat, facts[-1][0]) and facts[-1][1] == truth]
-            if not cands:
-                cands = [i for i, (k, pat, truth, what) in enumerate(table)
-                         if k == kind and any(re.search(pat, e) and tr == truth for (e, tr, g) in facts[-2:])]
             if cands:
                 free = [i for i in cands if used[i] == 0]
                 hit = (free or cands)[0]
@@ -132,7 +129,8 @@ def info_key(ctx, rule="INFO-KEY"):
         how = ""
         if ok:
             errs = [b for (b, t, k, m) in error_sites(prog, f)]
-            via_err = any(has_fact(S, e, r"Column::is_primary_key", True) for e in errs)
+            # the key test alone must decide: it is the innermost guard of the error
+            via_err = any((S.bool_facts_at(e) or [("", None, 0)])[-1][1] is True and "Column::is_primary_key" in S.bool_facts_at(e)[-1][0] for e in errs)
             via_map = any(re.search(r"BTreeMap::<K, V, A>::(insert|contains_key)$", cname(prog, t)) and "Vec<internal::value::Value>" in (t.get("written") or "") for b, t in f.calls())
             ok = via_err or via_map
             how = "key test leads to an error" if via_err else ("rows keyed by the primary-key vector in a BTreeMap" if via_map else "")
